@@ -52,7 +52,7 @@ fn draw_cfg(ctx: &mut Ctx) -> Cfg {
     // generator share: constellations G3/G4/G5 get at least 40 %
     let gen = match ctx.mode {
         Prop::C12 => *t.pick(&[1u32, 2, 7, 7, 3, 4, 5, 0, 9, 10, 10, 10, 10, 10, 10]),
-        Prop::C13 | Prop::C11 => *t.pick(&[1u32, 1, 2, 2, 7, 7, 8, 3, 4, 5, 0, 9, 10]),
+        Prop::C13 | Prop::C11 => *t.pick(&[1u32, 1, 2, 2, 7, 7, 8, 3, 4, 5, 0, 9, 9, 9, 10]),
         Prop::C04 => *t.pick(&[0u32, 1, 8, 8, 2, 3, 4, 5, 7, 9]),
         _ => *t.pick(&[0u32, 1, 2, 3, 3, 3, 4, 4, 5, 5, 6, 7, 8, 9, 3, 4, 5, 2]),
     };
@@ -854,8 +854,8 @@ fn corrupt_builder(ctx: &mut Ctx, s: &mut Session) -> Step {
                 ops.push("turn");
             }
             _ => {
-                bld.half_move_clock(*ctx.tape.pick(&[0u16, 99, 100, 9999, 65534]));
-                bld.full_move_clock(*ctx.tape.pick(&[0u16, 1, 9999, 65534]));
+                bld.half_move_clock(*ctx.tape.pick(&[0u16, 99, 100, 9999, 65534, 65535, 65535]));
+                bld.full_move_clock(*ctx.tape.pick(&[0u16, 1, 9999, 65534, 65535]));
                 ops.push("clocks");
             }
         }
@@ -1064,6 +1064,8 @@ struct LoopState {
     /// C04 per-run table: position key -> (zobrist, board, occurrences)
     seen: BTreeMap<PosKey, (u64, Board, u32)>,
     three_fold: chess_engine::ThreeFold,
+    /// consumer of Board's `Hash`/`Eq` with a fixed (deterministic) hasher
+    table: std::collections::HashMap<Board, u32, std::hash::BuildHasherDefault<std::collections::hash_map::DefaultHasher>>,
     recent: Vec<(Board, Pos1)>,
     other_text: String,
     history_text: Vec<String>,
@@ -1139,11 +1141,7 @@ fn one_ply(ctx: &mut Ctx, st: &mut LoopState, ply: u32) -> Step<Flow> {
             let z = op(Op::Hash, || st.s.board.zobrist());
             ctx.observe_u64(z);
             let fen = st.s.model.fen();
-            let n_before = st.three_fold.get(&st.s.board);
             let want_before = st.seen.get(&key).map(|e| e.2).unwrap_or(0);
-            if n_before as u32 != want_before.min(255) && want_before < 255 {
-                return ctx.fail(Prop::C04, "table.count", format!("want={want_before};got={n_before}"), format!("ThreeFold::get = {n_before}, reference occurrences {want_before}, for {fen}"));
-            }
             if let Some((z0, b0, n)) = st.seen.get_mut(&key) {
                 ctx.stats.bump("c04.recurrences");
                 let b0c = *b0;
@@ -1164,6 +1162,14 @@ fn one_ply(ctx: &mut Ctx, st: &mut LoopState, ply: u32) -> Step<Flow> {
                 }
                 st.seen.insert(key.clone(), (z, st.s.board, 1));
             }
+            // a std HashMap keyed by the board itself is the consumer of `Hash`/`Eq`: boards for
+            // the same position must land on one entry (checked after the direct comparisons
+            // above, so that a plain hash difference is reported as such)
+            let n_before = op(Op::Hash, || st.table.get(&st.s.board).copied().unwrap_or(0));
+            if n_before != want_before {
+                return ctx.fail(Prop::C04, "table.count", format!("want={};got={}", want_before.min(9), n_before.min(9)), format!("a hash map keyed by Board finds {n_before} earlier occurrences, the reference counts {want_before}, for {fen}"));
+            }
+            op(Op::Hash, || *st.table.entry(st.s.board).or_insert(0) += 1);
             if want_before < 250 {
                 op(Op::Hash, || st.three_fold.add(st.s.board));
             }
@@ -1340,7 +1346,7 @@ pub fn run(ctx: &mut Ctx) -> Step {
         last_gave_check: false,
     };
     ctx.stats.sample(|| format!("start {fen0}"));
-    let mut st = LoopState { s, cfg, seen: BTreeMap::new(), three_fold: chess_engine::ThreeFold::new(), recent: Vec::new(), other_text: fen0.clone(), history_text: Vec::new() };
+    let mut st = LoopState { s, cfg, seen: BTreeMap::new(), three_fold: chess_engine::ThreeFold::new(), table: Default::default(), recent: Vec::new(), other_text: fen0.clone(), history_text: Vec::new() };
     for ply in 0..st.cfg.ply_limit {
         match one_ply(ctx, &mut st, ply) {
             Ok(Flow::Continue) => {}
